@@ -242,12 +242,57 @@ NOT_APPLICABLE = {
 }
 
 
+# round 4 (waves 9 and 10): clauses added per property; appended to the technique and claim texts above
+ROUND4 = {
+    "C01": ("reader sinks followed into the constructor / connect (must-pass-through)",
+            "Round 4: every keyword the ensemble reader passes is consumed on the constructor branch that call takes, and Connectivity.connect appends a bond on every normal path."),
+    "C02": ("getter chain without value tests + listing refresh on every path (borrowed C04.R3/R8) + default buffer size tabulated",
+            "Round 4: the bytes read are returned without a truthiness / length test along Collection.__getitem__ -> backend.get -> UKVFile.get; every session refreshes the key listing "
+            "and update_keys replaces it on every path; the default buffer size flushes on every put (finite-model evaluation)."),
+    "C03": ("append-mode scan on a writable stream (borrowed C04.R3)", "Round 4: in mode 'a' map_blocks runs on a stream opened for writing, so the torn tail can be cut off."),
+    "C04": ("listing refresh must-pass-through + writable stream in append mode", "Round 4: update_keys of every backend replaces the listing on every normal path; the append-mode arm of open() scans a writable stream."),
+    "C05": ("path-sensitive parent store at insertion sites", "Round 4: the parent store at an insertion site runs on every normal path through the method (not only somewhere in it)."),
+    "C06": ("filtered __dict__ state evaluated per key + override defaults", "Round 4: a filter on the __dict__ part of the pickled state is evaluated for every attribute the hierarchy stores there; "
+            "the override parameters charge / mult / name of the constructor chain default to None (or to a falsy value where the base tests by truthiness)."),
+    "C07": ("symbol getter evaluated over members + memoised setter vs identity hash + top-level arms (borrowed C09.R1/R3)",
+            "Round 4: Element.symbol is the member name for an ordinary element and for the placeholder; a memoised Bond.set_mol2_type requires an identity hash; the mol2 arms of "
+            "ml.load / loads / load_all / loads_all / dump / dumps return / hand over the class codec's object unchanged."),
+    "C08": ("scale guards tabulated over unit factors + narrowing dtype scan + view order (borrowed C05.R5) + top-level arms (borrowed C09.R1/R3)",
+            "Round 4: the rejecting guards of scale() are tabulated over every DistanceUnit value and its reciprocal; nothing on the xyz read path narrows below double precision; "
+            "Substructure rows keep the order of its atoms; the xyz arms of the top-level entry points return the class codec's object."),
+    "C09": ("path / stream arm agreement in the class loaders + override defaults (borrowed C06.R7)",
+            "Round 4: the arm of a class-level loader that tells a path from a stream binds the stream only; the copy constructors the cdxml arms use keep the fragment's charge / multiplicity."),
+    "C10": ("non-element symbol tokens tabulated (sa/truth.py)", "Round 4: a symbol token that names no element and is no dummy marker reaches Element.get, which raises (tabulated over garbage tokens)."),
+    "C11": ("view keeps the caller's order + designator types are AtomLike (sibling agreement)",
+            "Round 4: Structure.substructure / Substructure.__init__ keep the caller's atom order (alignment pairs rows by position); every type get_atom / get_atom_index resolve is a member of "
+            "the AtomLike union that CartesianGeometry.vector tests before resolving."),
+    "C12": ("label order at the call site + copy_atoms forwarding (borrowed C06.R7) + zero charge in the base constructor",
+            "Round 4: attachment indices collected label by label are not re-ordered before _ml_assemble; copy_atoms travels up the constructor chain; the base constructor does not replace an "
+            "explicit zero charge for a list of atoms."),
+    "C13": ("view order clauses (borrowed C05.R5)", "Round 4: substructure((a1, a2)) has a1 in row 0 (the order clauses of the Substructure view)."),
+    "C14": ("storage classification of adopted rows + finite-model adoption guard + slice arithmetic + state of the ensemble (borrowed C06.R3)",
+            "Round 4: rows taken over from an argument are copies (view / copy classification of the assigned expression); rows sized by the argument alone are adopted only by an ensemble "
+            "without atoms (8-world finite model of the guard); ens[slice] resolves rows by slice.indices(n_conformers); the pickled state includes the weights."),
+    "C16": ("getter value exactness + same-named delegation of the radius accessors + antiparallel branch (borrowed C11.R6)",
+            "Round 4: Atom.valence_electrons returns the table value uncorrected; Atom.cov_radius_* / vdw_radius hand through the element's attribute of the same name; the helper "
+            "rotation's antiparallel branch is a rotation for exactly opposite directions."),
+    "C17": ("freshness of the bound job + module-state reachability from the driver + *args/**kwargs forwarding + no hard exit reachable from the runner + un-memoised loaders / lossless converters",
+            "Round 4: Job.__get__ returns a copy made in that call and parks nothing on the driver; nothing reachable from DriverBase.__init__ / Job.__get__ keeps module-level state; the vectorised "
+            "wrappers forward *args and **kwargs; no os._exit is reachable from run_local; JobInput / JobOutput loaders are not memoised and field converters drop no entry."),
+    "C18": ("borrowed C17.R1 / R5 clauses", "Round 4: the bound job is fresh per access and the output loader is not memoised (borrowed), so a resumed jobmap judges the current files and settings."),
+    "C19": ("script-level option forwarding and key pairing", "Round 4: the gbca / grid workers pass weighted / max_dist / eps to the kernels, zip results with the keys they were looked up for, and do not default eps by truthiness."),
+}
+
+
 def main():
     checks = []
     for pid in IDS:
         if pid not in CLAIMED:
             continue
         tech, text, ref, note = CLAIMED[pid]
+        if pid in ROUND4:
+            tech = tech + " + " + ROUND4[pid][0]
+            text = text + " " + ROUND4[pid][1]
         checks.append(dict(
             property_id=pid,
             quick_cmd=f"/venv/bin/python sa/check.py {pid} --tier quick",
